@@ -564,8 +564,8 @@ package builder
 //@           && dynIs[errElmField](arg5[len(errPath)]) && string(unboxed[errElmField](arg5[len(errPath)])) == targetField.Name()
 //@   at@C07 call mapField#* assert len(arg7) == len(errPath) + 1 && (forall j int :: 0 <= j && j < len(errPath) ==> arg7[j] == errPath[j])
 //@           && dynIs[errElmField](arg7[len(errPath)]) && string(unboxed[errElmField](arg7[len(errPath)])) == targetField.Name()
-//@   at@C10 call shouldCheckAgainstZero#1 assert arg1 == nextSource && arg2 == targetFieldType && arg3 == assignTo.Update && !arg4
-//@   at@C10 call shouldCheckAgainstZero#2 assert arg1 == functionCallSourceType && arg2 == targetFieldType && arg3 == assignTo.Update && arg4
+//@   at@C10,C11 call shouldCheckAgainstZero#1 assert arg1 == nextSource && arg2 == targetFieldType && arg3 == assignTo.Update && !arg4
+//@   at@C10,C11 call shouldCheckAgainstZero#2 assert arg1 == functionCallSourceType && arg2 == targetFieldType && arg3 == assignTo.Update && arg4
 // the guard is only asked about a source that exists (map|FUNC with a FUNC that takes no source has none): F12
 //@   at@C10,C13 call shouldCheckAgainstZero#* assert arg1 != nil
 //@   requires@C13 self != nil
@@ -589,8 +589,8 @@ package builder
 //@   props C03
 // C03: the nested position is always converted through the generator (method lookup + rules): a position without
 // rule at any depth fails the whole method -- it is never skipped or passed through unconverted
-//@   ensures@C03 err == nil ==> reached("gen.Assign#1")
-//@   at@C03 call gen.Assign#1 assert arg3 == source.ListInner && arg4 == target.ListInner
+//@   ensures@C03,C04 err == nil ==> reached("gen.Assign#1")
+//@   at@C03,C04 call gen.Assign#1 assert arg3 == source.ListInner && arg4 == target.ListInner
 //@   propagates
 // C07: element conversions get the path extended by the index variable of the emitted loop
 //@   at@C07 call gen.Assign#1 assert len(arg5) == len(path) + 1 && (forall j int :: 0 <= j && j < len(path) ==> arg5[j] == path[j])
@@ -616,9 +616,9 @@ package builder
 //@   props C03
 // C03: the nested position is always converted through the generator (method lookup + rules): a position without
 // rule at any depth fails the whole method -- it is never skipped or passed through unconverted
-//@   ensures@C03 err == nil ==> reached("gen.Build#1") && reached("gen.Assign#1")
-//@   at@C03 call gen.Build#1 assert arg2 == source.MapKey && arg3 == target.MapKey
-//@   at@C03 call gen.Assign#1 assert arg3 == source.MapValue && arg4 == target.MapValue
+//@   ensures@C03,C04 err == nil ==> reached("gen.Build#1") && reached("gen.Assign#1")
+//@   at@C03,C04 call gen.Build#1 assert arg2 == source.MapKey && arg3 == target.MapKey
+//@   at@C03,C04 call gen.Assign#1 assert arg3 == source.MapValue && arg4 == target.MapValue
 //@   propagates
 // C07: key and value conversions get the path extended by the range key variable of the emitted loop
 //@   at@C07 call gen.Build#1 assert len(arg4) == len(old(errPath)) + 1 && (forall j int :: 0 <= j && j < len(old(errPath)) ==> arg4[j] == old(errPath)[j])
@@ -642,6 +642,10 @@ package builder
 //@   ensures@C13 err == nil ==> result0 != nil && result0.Code != nil && result1 != nil
 //@   loop@C13 1 invariant nextIDCode != nil && nextSource != nil
 //@   at call NewError#1 assert skip ==> ctx.Conf.IgnoreMissing && dynIs[*xtype.NoMatchError](err)
+// C01/C14: a struct method or func field used as a source is parsed with "no source", against the OUTPUT package
+// (an unexported method of another package is rejected), and is called on the resolved source expression
+//@   at@C01,C14 call method.Parse#1 assert arg0 == types.Object(nextSource.FuncType) && arg1.OutputPackagePath == ctx.OutputPackagePath && arg1.Params == method.ParamsNone
+//@           && arg1.Converter == nil && !arg1.AllowTypeParams && !arg1.Generated && arg1.CustomCall == nextIDCode
 
 //@ func parseAutoMap
 //@   props C03 C05 C13
@@ -707,3 +711,10 @@ package builder
 //@   pure
 //@   ensures !strings.HasPrefix(targetName, "@") && !strings.HasPrefix(previous.Target, "@") ==> result == (targetEnum.Members[previous.Target] != targetEnum.Members[targetName])
 //@   ensures strings.HasPrefix(targetName, "@") || strings.HasPrefix(previous.Target, "@") ==> result == (targetName != previous.Target)
+
+// C08: the mappings of ALL configured transformers are merged (a later one overrides an earlier one per key);
+// a failing or empty transformer fails generation
+//@ func executeTransformers
+//@   props C08 C03
+//@   propagates
+//@   loop@C08 2 invariant forall k string :: has(seen, k) ==> has(transformerMapping, k)
